@@ -74,12 +74,29 @@ Record wfv (h : state) (t : nat) : Prop := {
   w_dsorted : zsorted (vdirty h);
   w_tnodup : NoDup (map fst (t_vals h)) }.
 
-Definition aentry_addr (e : aentry) : Z :=
-  match e with JCreate a => a | JBal a => a | JDlgBal a _ => a | JDlgs a _ => a end.
 Fixpoint ajchain (j : list aentry) : Prop :=
   match j with
   | [] => True
   | e :: r => (match e with JCreate d => ~ In d (map aentry_addr r) | _ => True end) /\ ajchain r
+  end.
+
+Definition bok (bl : list (list Z)) (hs : list Z) : bool :=
+  match hs with [] => true | l => existsb (list_eqb Z.eqb l) bl end.
+
+Lemma blob_ok_bok s ac : blob_ok s ac = bok (blobs s) (a_hash ac).
+Proof. unfold blob_ok, bok. destruct (a_hash ac); reflexivity. Qed.
+
+(* the delegation list an account had before the first change journalled for it
+   is stored in the trie database, unless the account is still in stateObjectsDirty *)
+Fixpoint ajbase (h : state) (j : list aentry) : Prop :=
+  match j with
+  | [] => True
+  | e :: r =>
+    (match e with
+     | JDlgs d prev => ~ In d (adirty h) -> (forall p, ~ In (JDlgs d p) r) ->
+                       bok (blobs h) prev = true
+     | _ => True
+     end) /\ ajbase h r
   end.
 
 Record wfa (h : state) : Prop := {
@@ -89,7 +106,11 @@ Record wfa (h : state) : Prop := {
             exists ac, aget (accts h) d = Some ac /\ a_ddirty ac = true;
   w_ajlive : forall e, In e (ajournal h) -> aget (accts h) (aentry_addr e) <> None;
   w_ajc : ajchain (ajournal h);
-  w_anodup : NoDup (map fst (accts h)) }.
+  w_anodup : NoDup (map fst (accts h));
+  w_ab : forall d ac, aget (accts h) d = Some ac -> ~ In d (adirty h) ->
+           (forall prev, ~ In (JDlgs d prev) (ajournal h)) -> blob_ok h ac = true;
+  w_ajb : ajbase h (ajournal h);
+  w_adsorted : zsorted (adirty h) }.
 
 Definition wf (h : state) (t : nat) : Prop := wfv h t /\ wfa h.
 
@@ -121,13 +142,12 @@ Definition hpre (h : state) (t : nat) (o : op) : bool :=
     | None => true
     | Some (v, l) =>
       Z.eqb amt 0 ||
-      (match aget (accts h) d with Some ac => acct_readable h ac | None => false end
+      (match aget (accts h) d with Some _ => true | None => false end
        && Z.leb 0 (tokl l d + amt))
     end
   | ORevert id => match aget (revs h) id with Some (_, vj) => Nat.leb t vj | None => false end
   | ORoot | OCommitReload =>
     forallb (fun a => match xpeek h a with Some (v, _) => negb (truncated_invalid v) | None => true end) (universe h)
-  | OCopy => forallb (fun p => blob_ok h (snd p)) (accts h)
   | OList => match vindex h, t_index h with
              | [], _ => true
              | _, None => true
@@ -139,11 +159,6 @@ Definition hpre (h : state) (t : nat) (o : op) : bool :=
 (* the taint after an operation *)
 Definition taint_next (h : state) (t : nat) (o : op) (h' : state) : nat :=
   match o with
-  | ODelegate d a amt =>
-    match xpeek h a with
-    | Some _ => if Z.eqb amt 0 then t else length (vjournal h')
-    | None => t
-    end
   | ORevert _ => Nat.min t (length (vjournal h'))
   | OFinalise | ORoot | OCommitReload | OCopy => 0%nat
   | _ => t
@@ -246,9 +261,17 @@ Proof.
   rewrite IH by (intros; apply H, in_or_app; auto). reflexivity.
 Qed.
 
-Lemma wfa_frame h h' : accts h' = accts h -> ajournal h' = ajournal h -> blobs h' = blobs h -> wfa h -> wfa h'.
+Lemma ajbase_frame h h' j : blobs h' = blobs h -> adirty h' = adirty h -> ajbase h j -> ajbase h' j.
 Proof.
-  intros E1 E2 E3 [A B C D E]. constructor; unfold blob_ok in *; rewrite ?E1, ?E2, ?E3; assumption.
+  intros E3 E4. induction j as [|e r IH]; cbn; [tauto|]. intros [H1 H2]. split; [|auto].
+  destruct e; try exact I. rewrite E3, E4. exact H1.
+Qed.
+
+Lemma wfa_frame h h' : accts h' = accts h -> ajournal h' = ajournal h -> blobs h' = blobs h ->
+  adirty h' = adirty h -> wfa h -> wfa h'.
+Proof.
+  intros E1 E2 E3 E4 [A B C D E F G H]. constructor; unfold blob_ok in *; rewrite ?E1, ?E2, ?E3, ?E4; try assumption.
+  eapply ajbase_frame; eauto.
 Qed.
 
 (* allocation alone *)
@@ -544,7 +567,7 @@ Lemma update_validator_fields h nw old h' : update_validator h nw old = Some h' 
    else match decr_stat (stat_ h) old with None => None | Some st1 => incr_stat st1 nw end) = Some (stat_ h') /\
   vdirty h' = vdirty h /\ accts h' = accts h /\ ajournal h' = ajournal h /\ revs h' = revs h /\
   next_id h' = next_id h /\ t_vals h' = t_vals h /\ t_index h' = t_index h /\ t_stat h' = t_stat h /\
-  blobs h' = blobs h.
+  blobs h' = blobs h /\ adirty h' = adirty h.
 Proof.
   unfold update_validator, with_stat. destruct (stake_equal nw old).
   - intros H; inversion H; subst; cbn. repeat split.
@@ -556,30 +579,27 @@ Qed.
 Lemma firstn_S_cons {A} (x : A) l n : firstn (S n) (x :: l) = x :: firstn n l.
 Proof. reflexivity. Qed.
 
-Lemma update_validator_spec h t x a old nw l h' :
+Lemma update_validator_spec h t x a old nw l l' h' :
   wf h t -> R h t x -> J x ->
   aget (vmap h) a = Some old -> v_deleted old = false -> absv h old = (norm old, l) ->
-  v_addr nw = a -> v_deleted nw = false -> v_aid nw = v_aid old -> v_len nw = v_len old ->
+  val_wf h a nw -> absv h nw = (norm nw, l') ->
+  (forall u, reachable h t u -> v_addr u <> a -> v_aid u <> v_aid nw) ->
   update_validator h nw old = Some h' ->
   wf h' t /\
-  R h' t (a_push x (c_update_validator (core x) a (norm nw, l) (norm old, l), [],
-                    [XUpdate a (norm nw, l) (norm old, l)])).
+  R h' t (a_push x (c_update_validator (core x) a (norm nw, l') (norm old, l), [],
+                    [XUpdate a (norm nw, l') (norm old, l)])).
 Proof.
-  intros [W WA] Rx HJ Hold Hod Habs Hna Hnd Hnaid Hnlen Hu.
+  intros [W WA] Rx HJ Hold Hod Habs Hnwf0 Habsn0 Hsepn Hu.
   destruct (update_validator_fields _ _ _ _ Hu) as
-    (Earr & Evm & Eidx & Evj & Est & Edirty & Eacc & Eaj & Erev & Enext & Etv & Eti & Ets & Ebl).
+    (Earr & Evm & Eidx & Evj & Est & Edirty & Eacc & Eaj & Erev & Enext & Etv & Eti & Ets & Ebl & Ead).
+  assert (Hna : v_addr nw = a) by apply Hnwf0. assert (Hnd : v_deleted nw = false) by apply Hnwf0.
   rewrite Hna in *.
   destruct (w_vmap _ _ W _ _ Hold) as [Hoa Howf]. specialize (Howf Hod).
   assert (Hle : heap_le h h') by (apply heap_le_eq, Earr).
-  assert (Hviewn : view h' nw = view h old).
-  { unfold view. rewrite Hnaid, Hnlen. unfold arr_of. now rewrite Earr. }
-  assert (Hnwf : val_wf h' a nw).
-  { destruct Howf as (_ & _ & H3 & H4 & H5). unfold val_wf. rewrite Hviewn, Hnaid, Hnlen.
-    unfold arr_of in *. rewrite Earr. auto. }
+  assert (Hnwf : val_wf h' a nw) by (eapply val_wf_eq; eauto).
   assert (Howf' : val_wf h' a old) by (eapply val_wf_eq; eauto).
   destruct (cj_push h h' _ t Evj (w_t _ _ W)) as [Ecj Etj].
-  assert (Habsn : absv h' nw = (norm nw, l)).
-  { unfold absv. rewrite Hviewn. unfold absv in Habs. inversion Habs. reflexivity. }
+  assert (Habsn : absv h' nw = (norm nw, l')) by (rewrite (absv_eq h h'); assumption).
   assert (Hreach : forall w, reachable h' t w -> w = nw \/ reachable h t w).
   { intros w [[b Hb]|Hin].
     - rewrite Evm in Hb. destruct (Z.eq_dec b a) as [->|Hne].
@@ -597,13 +617,14 @@ Proof.
       * rewrite aget_aset_other by assumption. intros Hw. destruct (w_vmap _ _ W _ _ Hw) as [H1 H2].
         split; [exact H1|]. intros Hd. eapply val_wf_eq; eauto.
     + intros w Hr. rewrite Earr. destruct (Hreach _ Hr) as [->|Hr0].
-      * rewrite Hnaid. apply (w_range _ _ W _ Holdr).
+      * apply Hnwf0.
       * apply (w_range _ _ W _ Hr0).
     + intros w1 w2 H1 H2 Hne.
-      assert (Hrep : forall w, reachable h' t w -> exists w0, reachable h t w0 /\ v_addr w0 = v_addr w /\ v_aid w0 = v_aid w).
-      { intros w Hr. destruct (Hreach _ Hr) as [->|Hr0]; [exists old; repeat split; auto; congruence|exists w; auto]. }
-      destruct (Hrep _ H1) as (u1 & R1 & A1 & I1), (Hrep _ H2) as (u2 & R2 & A2 & I2).
-      rewrite <- I1, <- I2. apply (w_sep _ _ W); congruence.
+      destruct (Hreach _ H1) as [->|R1], (Hreach _ H2) as [->|R2].
+      * congruence.
+      * intros E. apply (Hsepn _ R2); congruence.
+      * apply (Hsepn _ R1). congruence.
+      * apply (w_sep _ _ W); assumption.
     + rewrite Etv. apply (w_tvals _ _ W).
     + intros b w. rewrite Evm, Etv. destruct (Z.eq_dec b a) as [->|Hne].
       * rewrite aget_aset_same. intros E; inversion E; subst w. congruence.
@@ -668,11 +689,14 @@ Proof.
   destruct r as [old|].
   - destruct Hr as (Hv & Hd & Hx). rewrite Hx. intros Hu.
     unfold absv at 1. rewrite <- norm_apply_upd.
-    eapply (update_validator_spec h1 t x a old (apply_upd old u) _ h' W1 R1 HJ Hv Hd eq_refl); try exact Hu.
-    + destruct (w_vmap _ _ (proj1 W1) _ _ Hv) as [H1 _]. destruct old; exact H1.
-    + destruct old; exact Hd.
-    + destruct old; reflexivity.
-    + destruct old; reflexivity.
+    destruct (w_vmap _ _ (proj1 W1) _ _ Hv) as [Hoa Howf]. specialize (Howf Hd).
+    assert (Hsame : v_aid (apply_upd old u) = v_aid old /\ v_len (apply_upd old u) = v_len old) by (destruct old; auto).
+    destruct Hsame as [Hsa Hsl].
+    eapply (update_validator_spec h1 t x a old (apply_upd old u) _ _ h' W1 R1 HJ Hv Hd eq_refl); try exact Hu.
+    + destruct Howf as (A1 & A2 & A3 & A4 & A5). unfold val_wf, view in *. rewrite Hsa, Hsl.
+      repeat split; auto; destruct old; auto.
+    + unfold absv, view. now rewrite Hsa, Hsl.
+    + intros w Hw Hne. rewrite Hsa. apply (w_sep _ _ (proj1 W1)); [exact Hw|left; eauto|congruence].
   - destruct Hr as [Hx ->]. rewrite Hx. intros H; inversion H; subst. rewrite a_push_nil. auto.
 Qed.
 
@@ -843,19 +867,22 @@ Proof.
   destruct (aget (accts h) d) as [ac|] eqn:Ed; cbn [option_map].
   - split; [split|].
     + apply (wfv_frame h); auto.
-    + destruct WA as [A B C D E]. constructor; cbn.
+    + destruct WA as [A B C D E F G Hsd]. constructor; cbn [accts ajournal blobs adirty aj_push w_ajournal].
       * exact A.
       * intros d' prev [H|H]; [discriminate|]. exact (B _ _ H).
       * intros e [<-|H]; [cbn; congruence|]. exact (C _ H).
       * split; [exact I|exact D].
       * exact E.
+      * intros d' ac' Hac Hnd Hnj. apply (F d' ac' Hac Hnd). intros prev Hin. apply (Hnj prev). cbn; auto.
+      * cbn [ajbase]. split; [exact I|]. eapply ajbase_frame; [| |exact G]; reflexivity.
+      * exact Hsd.
     + unfold a_push. constructor; cbn; try apply Rx.
       all: try (now rewrite (r_aj _ _ _ Rx)).
       all: try (intros a; rewrite (r_xs _ _ _ Rx); symmetry; apply xpeek_frame; reflexivity).
       all: try (rewrite (r_vj _ _ _ Rx); reflexivity).
   - set (ac0 := mkA 0 [] false false). split; [split|].
     + apply (wfv_frame h); auto.
-    + destruct WA as [A B C D E]. constructor; cbn.
+    + destruct WA as [A B C D E F G Hsd]. constructor; cbn [accts ajournal blobs adirty aj_push w_ajournal w_accts].
       * intros d' ac. destruct (Z.eq_dec d' d) as [->|Hne].
         -- rewrite aget_aset_same. intros H; inversion H; subst. cbn. split; auto.
         -- rewrite aget_aset_other by assumption. apply A.
@@ -868,6 +895,12 @@ Proof.
       * split; [exact I|]. split; [|exact D].
         intros Hin. apply in_map_iff in Hin as (e & Ea & He). specialize (C _ He). congruence.
       * apply NoDup_aset, E.
+      * intros d' ac'. destruct (Z.eq_dec d' d) as [->|Hne].
+        -- rewrite aget_aset_same. intros H; inversion H; subst. reflexivity.
+        -- rewrite aget_aset_other by assumption. intros Hac Hnd Hnj. apply (F d' ac' Hac Hnd).
+           intros prev Hin. apply (Hnj prev). cbn; auto.
+      * cbn [ajbase]. split; [exact I|]. split; [exact I|]. eapply ajbase_frame; [| |exact G]; reflexivity.
+      * exact Hsd.
     + unfold a_push, c_accts. constructor; cbn; try apply Rx.
       all: try (now rewrite (r_aj _ _ _ Rx)).
       all: try (intros a; rewrite (r_xs _ _ _ Rx); symmetry; apply xpeek_frame; reflexivity).
@@ -964,12 +997,42 @@ Proof.
   - apply W.
 Qed.
 
-Lemma wfa_clear h h' : accts h' = accts h -> ajournal h' = [] -> blobs h' = blobs h -> wfa h -> wfa h'.
+Lemma finalise_adirty_In h d : In d (finalise_adirty h) <->
+  In d (adirty h) \/ (exists e, In e (ajournal h) /\ aentry_addr e = d /\ aget (accts h) d <> None).
 Proof.
-  intros E1 E2 E3 [A B C D E]. constructor; unfold blob_ok in *; rewrite ?E1, ?E2, ?E3; try assumption.
+  unfold finalise_adirty. generalize (adirty h). induction (ajournal h) as [|e r IH]; intros d0; cbn.
+  - split; [auto|]. intros [H|(e & [] & _)]; exact H.
+  - rewrite IH. destruct (aget (accts h) (aentry_addr e)) eqn:E.
+    + rewrite In_sins. split.
+      * intros [[->|H]|(e' & H1 & H2 & H3)]; [right; exists e; split; [auto|split; [reflexivity|congruence]]|auto|].
+        right. exists e'. auto.
+      * intros [H|(e' & [<-|H1] & H2 & H3)]; [auto| |].
+        -- left. left. congruence.
+        -- right. exists e'. auto.
+    + split.
+      * intros [H|(e' & H1 & H2 & H3)]; [auto|]. right. exists e'. auto.
+      * intros [H|(e' & [<-|H1] & H2 & H3)]; [auto| |].
+        -- congruence.
+        -- right. exists e'. auto.
+Qed.
+
+Lemma finalise_adirty_sorted h : zsorted (adirty h) -> zsorted (finalise_adirty h).
+Proof.
+  unfold finalise_adirty. generalize (adirty h). induction (ajournal h) as [|e r IH]; intros d0 H; cbn; [exact H|].
+  apply IH. destruct (aget (accts h) (aentry_addr e)); [apply zsorted_sins, H|exact H].
+Qed.
+
+Lemma wfa_clear h h' : accts h' = accts h -> ajournal h' = [] -> blobs h' = blobs h ->
+  adirty h' = finalise_adirty h -> wfa h -> wfa h'.
+Proof.
+  intros E1 E2 E3 E4 [A B C D E F G Hsd]. constructor; unfold blob_ok in *; rewrite ?E1, ?E2, ?E3; try assumption.
   - intros d prev [].
   - intros e [].
   - exact I.
+  - intros d ac Hac Hnd _. rewrite E4, finalise_adirty_In in Hnd. apply (F d ac Hac); [tauto|].
+    intros prev Hin. apply Hnd. right. exists (JDlgs d prev). split; [exact Hin|]. split; [reflexivity|congruence].
+  - exact I.
+  - rewrite E4. apply finalise_adirty_sorted, Hsd.
 Qed.
 
 Lemma sim_finalise h t x h' :
@@ -1035,13 +1098,13 @@ Definition Rc (h : state) (c : acore) : Prop :=
 Definition same_other (h h' : state) : Prop :=
   arrs h' = arrs h /\ vjournal h' = vjournal h /\ vdirty h' = vdirty h /\ accts h' = accts h /\
   ajournal h' = ajournal h /\ revs h' = revs h /\ next_id h' = next_id h /\
-  t_index h' = t_index h /\ t_stat h' = t_stat h /\ blobs h' = blobs h.
+  t_index h' = t_index h /\ t_stat h' = t_stat h /\ blobs h' = blobs h /\ adirty h' = adirty h.
 
 Lemma same_other_refl h : same_other h h.
 Proof. repeat split. Qed.
 Lemma same_other_trans a b c : same_other a b -> same_other b c -> same_other a c.
 Proof.
-  intros (A1&A2&A3&A4&A5&A6&A7&A8&A9&A10) (B1&B2&B3&B4&B5&B6&B7&B8&B9&B10).
+  intros (A1&A2&A3&A4&A5&A6&A7&A8&A9&A10&A11) (B1&B2&B3&B4&B5&B6&B7&B8&B9&B10&B11).
   repeat split; congruence.
 Qed.
 
@@ -1181,7 +1244,8 @@ Proof. intros (([Hs _ _ _] & _) & _). exact Hs. Qed.
 Lemma root_spec h t x h' :
   wf h t -> R h t x -> J x -> intermediate_root h = Some h' ->
   wf h' 0 /\ R h' 0 (a_root x) /\ t_index h' = Some (vindex h') /\
-  (stat_neg (stat_ h') = false -> t_stat h' = stat_ h') /\ blobs h' = blobs h /\ accts h' = accts h.
+  (stat_neg (stat_ h') = false -> t_stat h' = stat_ h') /\ blobs h' = blobs h /\ accts h' = accts h /\
+  adirty h' = finalise_adirty h.
 Proof.
   intros W Rx HJ. unfold intermediate_root.
   destruct (sim_finalise h t x (finalise h) W Rx eq_refl) as ([W0 WA0] & R0).
@@ -1192,19 +1256,20 @@ Proof.
   { split; [apply R0|]. split; [apply R0|]. split; apply R0. }
   assert (W0' : wfv (w_vdirty s0 (vdirty s0)) 0) by (rewrite w_vdirty_eta; exact W0).
   destruct (root_vals_sim _ _ _ _ W0' Ej0 HRc (J_sorted _ HJ) Erv) as (W1 & (Rxs & Ridx & Rst & Racc) & S1).
-  destruct S1 as (Ea & Ejj & Ed & Eac & Eaj & Erev & Enx & Eti & Ets & Ebl).
+  destruct S1 as (Ea & Ejj & Ed & Eac & Eaj & Erev & Enx & Eti & Ets & Ebl & Ead).
   set (s2 := w_t_index (w_vdirty s1 []) (Some (vindex s1))).
   intros H.
   assert (Hfields : arrs h' = arrs s1 /\ vmap h' = vmap s1 /\ vdirty h' = [] /\ vjournal h' = vjournal s1 /\
                     t_vals h' = t_vals s1 /\ accts h' = accts s1 /\ ajournal h' = ajournal s1 /\ blobs h' = blobs s1 /\
                     vindex h' = vindex s1 /\ stat_ h' = stat_ s1 /\ revs h' = revs s1 /\ next_id h' = next_id s1 /\
-                    t_index h' = Some (vindex s1) /\ (stat_neg (stat_ s1) = false -> t_stat h' = stat_ s1)).
+                    t_index h' = Some (vindex s1) /\ (stat_neg (stat_ s1) = false -> t_stat h' = stat_ s1) /\
+                    adirty h' = adirty s1).
   { destruct (stat_neg (stat_ s2)) eqn:En; inversion H; subst h'; cbn; repeat split; try discriminate.
     cbn in En. congruence. }
-  destruct Hfields as (F1 & F2 & F3 & F4 & F5 & F6 & F7 & F8 & F9 & F10 & F11 & F12 & F13 & F14).
-  split; [split|split; [|split; [|split; [|split]]]].
+  destruct Hfields as (F1 & F2 & F3 & F4 & F5 & F6 & F7 & F8 & F9 & F10 & F11 & F12 & F13 & F14 & F15).
+  split; [split|split; [|split; [|split; [|split; [|split]]]]].
   - apply (wfv_frame (w_vdirty s1 [])); auto.
-  - apply (wfa_frame s0); [congruence|congruence|congruence|exact WA0].
+  - apply (wfa_frame s0); [congruence|congruence|congruence|congruence|exact WA0].
   - unfold a_root. constructor; cbn [core xdirty xvj xaj xrevs xnext].
     + intros a. rewrite (r_dirty _ _ _ R0), Rxs. symmetry. apply xpeek_frame; auto.
     + rewrite (r_dirty _ _ _ R0), Ridx. auto.
@@ -1221,6 +1286,7 @@ Proof.
   - rewrite F10. exact F14.
   - rewrite F8, Ebl. reflexivity.
   - rewrite F6, Eac. reflexivity.
+  - rewrite F15, Ead. reflexivity.
 Qed.
 
 Lemma sim_root h t x h' :
@@ -1254,7 +1320,7 @@ Proof.
   intros [W WA] ((Rxs & Ridx & Rst & Racc) & RJ) Hs Ej. cbn zeta.
   set (h0 := w_ajournal h r).
   assert (WA0 : forall e', In e' r -> In e' (ajournal h)) by (intros; rewrite Ej; cbn; auto).
-  destruct WA as [A B C D E]. rewrite Ej in D. destruct D as [Dhd Dtl].
+  destruct WA as [A B C D E F G Hsd]. rewrite Ej in D. destruct D as [Dhd Dtl]. rewrite Ej in G. destruct G as [Ghd Gtl].
   assert (Hrest : forall hx, arrs hx = arrs h -> vmap hx = vmap h -> vdirty hx = vdirty h -> vjournal hx = vjournal h ->
                   t_vals hx = t_vals h -> vindex hx = vindex h -> stat_ hx = stat_ h ->
                   (forall d, aget (xaccts (c_aundo1 c e)) d = option_map ess (aget (accts hx) d)) ->
@@ -1283,6 +1349,12 @@ Proof.
         rewrite aget_adel_other by assumption. exact (C _ (WA0 _ Hin)).
       * exact Dtl.
       * apply NoDup_adel, E.
+      * intros d' ac'. destruct (Z.eq_dec d' d) as [->|Hne].
+        -- rewrite (aget_adel_same_nodup _ _ E). discriminate.
+        -- rewrite aget_adel_other by assumption. intros Hac Hnd Hnj. apply (F d' ac' Hac Hnd).
+           intros prev. rewrite Ej. intros [Hc|Hc]; [discriminate|exact (Hnj prev Hc)].
+      * eapply ajbase_frame; [| |exact Gtl]; reflexivity.
+      * exact Hsd.
     + apply Hrest; auto. intros d'. cbn. destruct (Z.eq_dec d' d) as [->|Hne].
       * rewrite (aget_adel_same _ _ Hs), (aget_adel_same_nodup _ _ E). reflexivity.
       * rewrite !aget_adel_other by assumption. apply Racc.
@@ -1296,6 +1368,10 @@ Proof.
       * intros e' Hin. exact (C _ (WA0 _ Hin)).
       * exact Dtl.
       * exact E.
+      * intros d' ac' Hac Hnd Hnj. apply (F d' ac' Hac Hnd).
+        intros prev. rewrite Ej. intros [Hc|Hc]; [discriminate|exact (Hnj prev Hc)].
+      * eapply ajbase_frame; [| |exact Gtl]; reflexivity.
+      * exact Hsd.
     + apply Hrest; auto.
     + exact Hs.
   - (* JDlgBal *)
@@ -1318,6 +1394,15 @@ Proof.
         -- rewrite aget_aset_other by assumption. exact (C _ (WA0 _ Hin)).
       * exact Dtl.
       * apply NoDup_aset, E.
+      * intros d' ac'. destruct (Z.eq_dec d' d) as [->|Hne].
+        -- rewrite aget_aset_same. intros Hq; inversion Hq; subst ac'. intros Hnd Hnj.
+           assert (Hb : blob_ok h ac = true).
+           { apply (F d ac Ed Hnd). intros p. rewrite Ej. intros [Hc|Hc]; [discriminate|exact (Hnj p Hc)]. }
+           exact Hb.
+        -- rewrite aget_aset_other by assumption. intros Hac Hnd Hnj. apply (F d' ac' Hac Hnd).
+           intros p. rewrite Ej. intros [Hc|Hc]; [discriminate|exact (Hnj p Hc)].
+      * eapply ajbase_frame; [| |exact Gtl]; reflexivity.
+      * exact Hsd.
     + apply Hrest; auto. intros d'. cbn [c_aundo1]. rewrite HA. cbn [ess]. unfold c_accts; cbn [xaccts accts w_accts].
       destruct (Z.eq_dec d' d) as [->|Hne].
       * now rewrite aget_sset_same, aget_aset_same.
@@ -1345,6 +1430,13 @@ Proof.
         -- rewrite aget_aset_other by assumption. exact (C _ (WA0 _ Hin)).
       * exact Dtl.
       * apply NoDup_aset, E.
+      * intros d' ac'. destruct (Z.eq_dec d' d) as [->|Hne].
+        -- rewrite aget_aset_same. intros Hq; inversion Hq; subst ac'. intros Hnd Hnj.
+           rewrite blob_ok_bok. cbn [a_hash ac1 blobs w_accts h0 w_ajournal]. apply Ghd; assumption.
+        -- rewrite aget_aset_other by assumption. intros Hac Hnd Hnj. apply (F d' ac' Hac Hnd).
+           intros p. rewrite Ej. intros [Hc|Hc]; [inversion Hc; congruence|exact (Hnj p Hc)].
+      * eapply ajbase_frame; [| |exact Gtl]; reflexivity.
+      * exact Hsd.
     + apply Hrest; auto. intros d'. cbn [c_aundo1]. rewrite HA. cbn [ess]. unfold c_accts; cbn [xaccts accts w_accts].
       destruct (Z.eq_dec d' d) as [->|Hne].
       * now rewrite aget_sset_same, aget_aset_same.
@@ -1452,6 +1544,7 @@ Proof.
     assert (Hfields : arrs h1 = arrs h /\ vmap h1 = aset (vmap h) a old /\ vindex h1 = sins a (vindex h) /\
               vjournal h1 = r /\ vdirty h1 = vdirty h /\ t_vals h1 = t_vals h /\ accts h1 = accts h /\
               ajournal h1 = ajournal h /\ blobs h1 = blobs h /\ revs h1 = revs h /\ next_id h1 = next_id h /\
+              adirty h1 = adirty h /\
               a_adjust (stat_ h) (norm old) (norm nw) = stat_ h1).
     { unfold with_stat in Hu. rewrite stake_equal_sym in Hu.
       assert (Hadj : (if stake_equal old nw then Some (stat_ h)
@@ -1465,7 +1558,7 @@ Proof.
       - change (stat_ s1) with (stat_ h) in Hu. destruct (decr_stat (stat_ h) nw) as [st1|]; [|discriminate].
         destruct (incr_stat st1 old); [|discriminate]. inversion Hu; subst h1.
         unfold s1, set_validator, index_add; cbn. rewrite Hoa. repeat split. exact Hadj. }
-    destruct Hfields as (Earr & Evm & Eidx & Evj & Edirty & Etv & Eacc & Eaj & Ebl & Erev & Enx & Estat).
+    destruct Hfields as (Earr & Evm & Eidx & Evj & Edirty & Etv & Eacc & Eaj & Ebl & Erev & Enx & Ead & Estat).
     assert (Hold_r : reachable h t old) by (right; rewrite Ecj; cbn; auto).
     assert (Hreach : forall u, reachable h1 t u -> reachable h t u).
     { intros u Hr. destruct (Hreach0 h1 u Evj Hr) as [[b Hb]|Hin]; [|auto].
@@ -2034,7 +2127,7 @@ Proof.
   intros [W WA] Rx Hd Hread. unfold update_delegator, c_update_delegator. rewrite Hd.
   destruct (load_dlgs_spec h ac0 Hread) as (ac & Hl & Hb & Hh & Hdd & Hlo). rewrite Hl.
   rewrite (r_accts _ _ _ Rx d), Hd. cbn [option_map ess]. rewrite <- Hh.
-  destruct WA as [A B C D E].
+  destruct WA as [A B C D E F G Hsd].
   set (found := mem a (a_hash ac)).
   assert (Hfin : forall (changed : bool) (lst1 : list Z) (jnew : list aentry),
             (changed = true -> jnew = [JDlgs d (a_hash ac)]) -> (changed = false -> jnew = [] /\ lst1 = a_hash ac) ->
@@ -2045,7 +2138,7 @@ Proof.
                          ((JDlgBal d (a_dbal ac0) :: jnew) ++ xaj x) (xrevs x) (xnext x))).
   { intros changed lst1 jnew Hc1 Hc0 ac2 hh. split; [split|].
     - apply (wfv_frame h); auto.
-    - constructor; cbn [accts ajournal hh w_accts w_ajournal blobs].
+    - constructor; cbn [accts ajournal hh w_accts w_ajournal blobs adirty].
       + intros d' ac'. destruct (Z.eq_dec d' d) as [->|Hne].
         * rewrite aget_aset_same. intros H; inversion H; subst ac'. cbn. split; [auto|].
           destruct changed; [discriminate|]. intros Hdf. destruct (Hc0 eq_refl) as [_ ->].
@@ -2071,6 +2164,20 @@ Proof.
         * rewrite (Hc1 eq_refl). cbn. split; [exact I|exact D].
         * destruct (Hc0 eq_refl) as [-> _]. exact D.
       + apply NoDup_aset, E.
+      + intros d' ac'. destruct (Z.eq_dec d' d) as [->|Hne].
+        * rewrite aget_aset_same. intros Hq; inversion Hq; subst ac'. intros Hnd Hnj.
+          destruct changed.
+          -- exfalso. apply (Hnj (a_hash ac)). right. rewrite (Hc1 eq_refl). cbn. auto.
+          -- destruct (Hc0 eq_refl) as [-> ->]. rewrite blob_ok_bok. cbn [a_hash ac2 blobs hh w_accts w_ajournal].
+             rewrite Hh, <- blob_ok_bok. apply (F d ac0 Hd Hnd). intros p Hin. apply (Hnj p). right. exact Hin.
+        * rewrite aget_aset_other by assumption. intros Hac Hnd Hnj. apply (F d' ac' Hac Hnd).
+          intros p Hin. apply (Hnj p). right. apply in_or_app. right. exact Hin.
+      + cbn [ajbase]. split; [exact I|]. destruct changed.
+        * rewrite (Hc1 eq_refl). cbn [app ajbase]. split.
+          -- intros Hnd Hnj. cbn [blobs hh w_accts w_ajournal]. rewrite Hh, <- blob_ok_bok. apply (F d ac0 Hd Hnd Hnj).
+          -- eapply ajbase_frame; [| |exact G]; reflexivity.
+        * destruct (Hc0 eq_refl) as [-> _]. cbn [app]. eapply ajbase_frame; [| |exact G]; reflexivity.
+      + exact Hsd.
     - constructor; cbn [core xdirty xvj xaj xrevs xnext]; try apply Rx.
       all: try (intros b; unfold c_accts; cbn [xs]; rewrite (r_xs _ _ _ Rx); symmetry; apply xpeek_frame; reflexivity).
       all: try (rewrite (r_vj _ _ _ Rx); reflexivity).
@@ -2135,23 +2242,67 @@ Proof. reflexivity. Qed.
 Lemma val_ok_dsorted x a v l : J x -> aget (xs (core x)) a = Some (v, l) -> dsorted l.
 Proof. intros (([_ Hv _ _] & _) & _) H. destruct (Hv _ _ H) as (_&_&_&_&_&_&_&[Hs _]&_). exact Hs. Qed.
 
+(* growing the heap (allocations, or mutation of arrays nothing reachable points to) *)
+Lemma wf_grow h t A : heap_le h (w_arrs h A) -> wf h t -> wf (w_arrs h A) t.
+Proof.
+  intros Hle [W WA]. set (h' := w_arrs h A).
+  split; [|apply (wfa_frame h); auto]. constructor.
+  - apply W.
+  - intros a v Hv. destruct (w_vmap _ _ W a v Hv) as [H1 H2]. split; [exact H1|].
+    intros Hd. eapply val_wf_le; eauto.
+  - intros v Hr. pose proof (w_range _ _ W v Hr). destruct Hle as [L _]. cbn in *. lia.
+  - apply (w_sep _ _ W).
+  - apply (w_tvals _ _ W).
+  - apply (w_tomb _ _ W).
+  - intros a v Hv Hd N1 N2. eapply coherent_le; eauto.
+    apply (w_range _ _ W). left. eauto.
+    apply (w_coh _ _ W a v Hv Hd N1 N2).
+  - apply (w_jlive _ _ W).
+  - eapply jwf_le; eauto. apply (w_jwf _ _ W).
+  - apply (w_dirty _ _ W).
+  - apply (w_nodup _ _ W).
+  - apply (w_dsorted _ _ W).
+  - apply (w_tnodup _ _ W).
+Qed.
+
+Lemma R_grow h t x A : heap_le h (w_arrs h A) -> wf h t -> R h t x -> R (w_arrs h A) t x.
+Proof.
+  intros Hle [W WA] Rx. constructor; try apply Rx.
+  - intros a. rewrite (r_xs _ _ _ Rx). symmetry. apply xpeek_le; auto.
+    intros v Hv. apply (w_range _ _ W). left; eauto.
+  - cbn [vjournal w_arrs]. rewrite (r_vj _ _ _ Rx). symmetry.
+    change (cj (w_arrs h A) t) with (cj h t).
+    apply map_abs_entry_le; [assumption|]. intros v Hv. apply (w_range _ _ W). right. exact Hv.
+Qed.
+
+Lemma w_arrs_w_arrs h A B : w_arrs (w_arrs h A) B = w_arrs h B.
+Proof. reflexivity. Qed.
+
+Lemma firstn_app_le {A} (l1 l2 : list A) n : (n <= length l1)%nat -> firstn n (l1 ++ l2) = firstn n l1.
+Proof. intros H. rewrite firstn_app. replace (n - length l1)%nat with 0%nat by lia. cbn. apply app_nil_r. Qed.
+
+Lemma acct_readable_wf h ac d : wfa h -> aget (accts h) d = Some ac -> acct_readable h ac = true.
+Proof.
+  intros WA Hd. unfold acct_readable. destruct (w_acct _ WA _ _ Hd) as [[E|E] _]; rewrite E; [reflexivity|apply orb_true_r].
+Qed.
+
 Lemma sim_delegate h t x d a amt h' :
   wf h t -> R h t x -> J x -> hpre h t (ODelegate d a amt) = true -> step h (ODelegate d a amt) = Some h' ->
-  wf h' (taint_next h t (ODelegate d a amt) h') /\ R h' (taint_next h t (ODelegate d a amt) h') (a_step x (ODelegate d a amt)).
+  wf h' t /\ R h' t (a_step x (ODelegate d a amt)).
 Proof.
-  intros W Rx HJ Hp. cbn [step a_step taint_next]. cbn [hpre] in Hp.
+  intros W Rx HJ Hp. cbn [step a_step]. cbn [hpre] in Hp.
   destruct (get_validator h a) as [h1 r] eqn:Eg.
   destruct (get_validator_spec _ _ _ _ _ _ W Rx HJ Eg) as (W1 & R1 & Hle & Hrest & Hr).
   destruct r as [v|].
-  2:{ destruct Hr as [Hx ->]. rewrite Hx. intros H; inversion H; subst h'.
+  2:{ destruct Hr as [Hx ->]. intros H; inversion H; subst h'.
       unfold c_delegate. rewrite (r_xs _ _ _ Rx), Hx. rewrite a_push_nil. auto. }
-  destruct Hr as (Hv & Hvd & Hx). rewrite Hx in *. unfold absv in Hp. unfold update_delegation.
+  destruct Hr as (Hv & Hvd & Hx). rewrite Hx in Hp. unfold absv in Hp. unfold update_delegation.
   destruct (Z.eqb_spec amt 0) as [Hz|Hnz].
   { intros H; inversion H; subst h'. unfold c_delegate. rewrite (r_xs _ _ _ Rx), Hx. unfold absv.
     destruct (Z.eqb_spec amt 0); [|contradiction]. rewrite a_push_nil. auto. }
   cbn [orb] in Hp. apply andb_prop in Hp as [Hacc Hnn].
   destruct (aget (accts h) d) as [ac0|] eqn:Ead; [|discriminate].
-  destruct W1 as [W1 WA1]. destruct (w_vmap _ _ W1 _ _ Hv) as [Hva Hvwf]. specialize (Hvwf Hvd).
+  pose proof W1 as [W1v WA1]. destruct (w_vmap _ _ W1v _ _ Hv) as [Hva Hvwf]. specialize (Hvwf Hvd).
   set (l := stripd (view h1 v)) in *.
   assert (Hview : view h1 v = map Some l) by (apply view_stripd, Hvwf).
   assert (Hxs : aget (xs (core x)) a = Some (norm v, l)) by (rewrite (r_xs _ _ _ Rx), Hx; reflexivity).
@@ -2163,131 +2314,70 @@ Proof.
   { unfold e. destruct (dget l d) eqn:E; [reflexivity|]. specialize (Hposs eq_refl). destruct (Z.ltb_spec amt 0); [lia|reflexivity]. }
   rewrite Hstart.
   set (tok := d_token e + amt). set (e' := mkD d (tok / stake_unit) tok).
-  set (nv0 := set_total v (v_token v + amt) (v_stake v + (tok / stake_unit - d_stake e))).
-  assert (Hnv0wf : val_wf h1 a nv0).
-  { destruct Hvwf as (A1 & A2 & A3 & A4 & A5). unfold val_wf, view in *. destruct v; cbn in *. auto. }
-  assert (Hnv0view : view h1 nv0 = map Some l) by (rewrite <- Hview; destruct v; reflexivity).
-  destruct (update_dfrom_spec h1 a nv0 l e' Hnv0wf Hnv0view Hsorted)
+  (* the private slice *)
+  unfold alloc. set (aid2 := length (arrs h1)).
+  set (h2 := w_arrs h1 (arrs h1 ++ [map Some l ++ [None]])).
+  assert (Hle2 : heap_le h1 h2) by apply heap_le_alloc.
+  set (nv0 := set_view (set_total v (v_token v + amt) (v_stake v + (tok / stake_unit - d_stake e))) aid2 (v_len v)).
+  assert (Hlenl : length l = v_len v).
+  { destruct Hvwf as (_ & _ & _ & A4 & _). rewrite <- (map_length Some l), <- Hview. unfold view. apply firstn_length_le, A4. }
+  assert (Harr2 : arr_of h2 aid2 = map Some l ++ [None]).
+  { unfold arr_of, h2; cbn. rewrite app_nth2 by (unfold aid2; lia). unfold aid2. now rewrite Nat.sub_diag. }
+  assert (Hnv0view : view h2 nv0 = map Some l).
+  { unfold view. replace (v_aid nv0) with aid2 by (unfold nv0; destruct v; reflexivity).
+    replace (v_len nv0) with (v_len v) by (unfold nv0; destruct v; reflexivity).
+    rewrite Harr2, firstn_app_le by (rewrite map_length; lia). rewrite <- Hlenl, <- (map_length Some l). apply firstn_all. }
+  assert (Hnv0wf : val_wf h2 a nv0).
+  { unfold val_wf. rewrite Hnv0view.
+    replace (v_aid nv0) with aid2 by (unfold nv0; destruct v; reflexivity).
+    replace (v_len nv0) with (v_len v) by (unfold nv0; destruct v; reflexivity).
+    rewrite Harr2. split; [unfold nv0; destruct v; exact Hva|]. split; [unfold nv0; destruct v; exact Hvd|].
+    split; [unfold h2, aid2; cbn; rewrite app_length; cbn; lia|].
+    split; [rewrite app_length, map_length; cbn; lia|apply has_nil_map_some]. }
+  destruct (update_dfrom_spec h2 a nv0 l e' Hnv0wf Hnv0view Hsorted)
     as (s1 & nv & Hud & Hnview & Hnvwf & Hnnorm & Hs1w & Hs1len & Hs1fr & Hnaid).
   rewrite Hud.
   destruct (update_validator s1 nv v) as [s2|] eqn:Euv; [|discriminate].
   intros Hdel.
-  destruct (update_validator_fields _ _ _ _ Euv) as
-    (Earr & Evm & Eidx & Evj & Est & Edirty & Eacc & Eaj & Erev & Enext & Etv & Eti & Ets & Ebl).
-  assert (Hnva : v_addr nv = a) by apply Hnvwf. rewrite Hnva in *.
-  assert (Hs1fields : vmap s1 = vmap h1 /\ vindex s1 = vindex h1 /\ stat_ s1 = stat_ h1 /\ vjournal s1 = vjournal h1 /\
-            vdirty s1 = vdirty h1 /\ accts s1 = accts h1 /\ ajournal s1 = ajournal h1 /\ revs s1 = revs h1 /\
-            next_id s1 = next_id h1 /\ t_vals s1 = t_vals h1 /\ blobs s1 = blobs h1).
-  { rewrite Hs1w. cbn. repeat split. }
-  destruct Hs1fields as (F1 & F2 & F3 & F4 & F5 & F6 & F7 & F8 & F9 & F10 & F11).
-  assert (Hv_aid : (v_aid v < length (arrs h1))%nat) by apply Hvwf.
-  assert (Hnv0aid : v_aid nv0 = v_aid v) by (destruct v; reflexivity).
-  (* other cached validators are untouched *)
-  assert (Hfr : forall b w, b <> a -> aget (vmap h1) b = Some w ->
-            (v_aid w < length (arrs h1))%nat /\ v_aid w <> v_aid v /\ arr_of s2 (v_aid w) = arr_of h1 (v_aid w) /\ view s2 w = view h1 w).
-  { intros b w Hne Hw. destruct (w_vmap _ _ W1 _ _ Hw) as [Hwa _].
-    assert (R1w : reachable h1 t w) by (left; eauto). assert (R1v : reachable h1 t v) by (left; eauto).
-    pose proof (w_range _ _ W1 _ R1w) as Hrg.
-    assert (Hsep : v_aid w <> v_aid v) by (apply (w_sep _ _ W1); [assumption|assumption|congruence]).
-    assert (Ha2 : arr_of s2 (v_aid w) = arr_of h1 (v_aid w)).
-    { unfold arr_of at 1. rewrite Earr. apply Hs1fr; [assumption|]. now rewrite Hnv0aid. }
-    repeat split; auto. unfold view. now rewrite Ha2. }
-  set (t2 := length (vjournal s2)).
-  assert (Hcj2 : cj s2 t2 = []) by (unfold cj, t2; now rewrite Nat.sub_diag).
-  assert (Hreach2 : forall u, reachable s2 t2 u -> u = nv \/ exists b, b <> a /\ aget (vmap h1) b = Some u).
-  { intros u [[b Hb]|Hin]; [|rewrite Hcj2 in Hin; destruct Hin].
-    rewrite Evm, F1 in Hb. destruct (Z.eq_dec b a) as [->|Hne].
-    - rewrite aget_aset_same in Hb. inversion Hb; auto.
-    - rewrite aget_aset_other in Hb by assumption. right; eauto. }
-  assert (Hnvrange : (v_aid nv < length (arrs s2))%nat) by (rewrite Earr; apply Hnvwf).
-  assert (Hview2 : view s2 nv = map Some (fst (dl_next l e'))).
-  { rewrite <- Hnview. unfold view, arr_of. now rewrite Earr. }
-  assert (Hnvwf2 : val_wf s2 a nv) by (eapply val_wf_eq; eauto).
-  assert (Hnorm2 : norm nv = set_total (norm v) (v_token v + amt) (v_stake v + (tok / stake_unit - d_stake e))).
-  { rewrite Hnnorm. unfold nv0. now rewrite norm_set_total. }
-  assert (W2 : wfv s2 t2).
-  { constructor.
-    - unfold t2. lia.
-    - intros b w. rewrite Evm, F1. destruct (Z.eq_dec b a) as [->|Hne].
-      + rewrite aget_aset_same. intros E; inversion E; subst w. split; [exact Hnva|intros _; exact Hnvwf2].
-      + rewrite aget_aset_other by assumption. intros Hw. destruct (w_vmap _ _ W1 _ _ Hw) as [H1 H2].
-        split; [exact H1|]. intros Hd. destruct (H2 Hd) as (B1 & B2 & B3 & B4 & B5).
-        destruct (Hfr _ _ Hne Hw) as (C1 & C2 & C3 & C4).
-        unfold val_wf. rewrite C3, C4, Earr. repeat split; auto. lia.
-    - intros u Hu. destruct (Hreach2 _ Hu) as [->|(b & Hne & Hb)]; [exact Hnvrange|].
-      destruct (Hfr _ _ Hne Hb) as (C1 & _). rewrite Earr. lia.
-    - intros u1 u2 H1 H2 Hne.
-      destruct (Hreach2 _ H1) as [->|(b1 & Hn1 & Hb1)], (Hreach2 _ H2) as [->|(b2 & Hn2 & Hb2)].
-      + congruence.
-      + destruct (Hfr _ _ Hn2 Hb2) as (C1 & C2 & _). destruct Hnaid as [E|E]; rewrite E, ?Hnv0aid; lia.
-      + destruct (Hfr _ _ Hn1 Hb1) as (C1 & C2 & _). destruct Hnaid as [E|E]; rewrite E, ?Hnv0aid; lia.
-      + apply (w_sep _ _ W1); [left; eauto|left; eauto|assumption].
-    - rewrite Etv, F10. apply (w_tvals _ _ W1).
-    - intros b w. rewrite Evm, F1, Etv, F10. destruct (Z.eq_dec b a) as [->|Hne].
-      + rewrite aget_aset_same. intros E; inversion E; subst w. intros Hd. destruct Hnvwf as (_ & Hd' & _). congruence.
-      + rewrite aget_aset_other by assumption. apply (w_tomb _ _ W1).
-    - intros b w. rewrite Evm, F1, Edirty, F5, Evj, F4. destruct (Z.eq_dec b a) as [->|Hne].
-      + intros _ _ _ N. exfalso. apply N. cbn. auto.
-      + rewrite aget_aset_other by assumption. intros Hw Hd N1 N2.
-        destruct (w_coh _ _ W1 b w Hw Hd N1) as (p & P1 & P2 & P3); [intros Hin; apply N2; cbn; auto|].
-        destruct (Hfr _ _ Hne Hw) as (_ & _ & _ & C4).
-        exists p. rewrite Etv, F10, C4. auto.
-    - intros e0. rewrite Evj, F4, Evm, F1. intros [<-|He]; cbn.
-      + rewrite aget_aset_same. exists nv. split; [reflexivity|apply Hnvwf].
-      + destruct (Z.eq_dec (ventry_addr e0) a) as [->|Hne].
-        * rewrite aget_aset_same. exists nv. split; [reflexivity|apply Hnvwf].
-        * rewrite aget_aset_other by assumption. apply (w_jlive _ _ W1 e0 He).
-    - rewrite Hcj2. exact I.
-    - intros b. rewrite Edirty, F5, Evm, F1. intros Hb. destruct (Z.eq_dec b a) as [->|Hne].
-      + rewrite aget_aset_same. exists nv. split; [reflexivity|apply Hnvwf].
-      + rewrite aget_aset_other by assumption. apply (w_dirty _ _ W1 b Hb).
-    - rewrite Evm, F1. apply NoDup_aset, (w_nodup _ _ W1).
-    - rewrite Edirty, F5. apply (w_dsorted _ _ W1).
-    - rewrite Etv, F10. apply (w_tnodup _ _ W1). }
-  assert (WA2 : wfa s2) by (apply (wfa_frame h1); [congruence|congruence|congruence|exact WA1]).
-  set (nvx := set_total (norm v) (v_token v + amt) (v_stake v + (tok / stake_unit - d_stake e))).
-  set (l' := fst (dl_next l e')).
-  set (c1 := c_update_validator (core x) a (nvx, l') (norm v, l)).
-  set (x2 := a_push x (c1, [], [XUpdate a (nvx, l') (norm v, l)])).
-  assert (R2 : R s2 t2 x2).
-  { unfold x2, a_push. constructor; cbn [core xdirty xvj xaj xrevs xnext app].
-    - intros b. unfold c1, c_update_validator, c_set_validator, c_stat, c_index, c_xs; cbn [xs].
-      unfold xpeek. rewrite Evm, F1, Etv, F10. destruct (Z.eq_dec b a) as [->|Hne].
-      + rewrite aget_sset_same, aget_aset_same. destruct Hnvwf as (_ & Hd' & _). rewrite Hd'.
-        unfold absv. rewrite Hview2, stripd_map_some, Hnorm2. reflexivity.
-      + rewrite aget_sset_other, aget_aset_other by assumption. rewrite (r_xs _ _ _ R1). unfold xpeek.
-        destruct (aget (vmap h1) b) as [w|] eqn:Ew; [|reflexivity]. destruct (v_deleted w); [reflexivity|].
-        destruct (Hfr _ _ Hne Ew) as (_ & _ & _ & C4). unfold absv. now rewrite C4.
-    - unfold c1, c_update_validator, c_set_validator, c_stat, c_index, c_xs; cbn [xindex].
-      now rewrite Eidx, F2, (r_index _ _ _ R1).
-    - unfold c1, c_update_validator, c_set_validator, c_stat, c_index, c_xs; cbn [xstat fst].
-      rewrite (r_stat _ _ _ R1). unfold nvx. rewrite <- Hnorm2. apply adjust_sim. rewrite <- F3. exact Est.
-    - intros d0. unfold c1, c_update_validator, c_set_validator, c_stat, c_index, c_xs; cbn [xaccts].
-      rewrite Eacc, F6. apply R1.
-    - rewrite Edirty, F5. apply R1.
-    - rewrite Eaj, F7. apply R1.
-    - rewrite Erev, F8. apply R1.
-    - rewrite Enext, F9. apply R1.
-    - rewrite Evj, F4. cbn. now rewrite (r_vjlen _ _ _ R1).
-    - rewrite Evj, F4. cbn. now rewrite (r_vja _ _ _ R1).
-    - rewrite Hcj2. unfold t2. now rewrite Nat.sub_diag. }
+  assert (Hnv0aid : v_aid nv0 = aid2) by (unfold nv0; destruct v; reflexivity).
+  assert (Hs1eq : s1 = w_arrs h1 (arrs s1)) by (rewrite Hs1w; reflexivity).
+  assert (Hle1 : heap_le h1 (w_arrs h1 (arrs s1))).
+  { split.
+    - cbn. destruct Hle2 as [L2 _]. lia.
+    - intros k Hk. change (arr_of (w_arrs h1 (arrs s1)) k) with (arr_of s1 k).
+      rewrite Hs1fr; [apply Hle2, Hk | destruct Hle2; lia | rewrite Hnv0aid; unfold aid2; lia]. }
+  pose proof (wf_grow h1 t (arrs s1) Hle1 W1) as Ws1. pose proof (R_grow h1 t x (arrs s1) Hle1 W1 R1) as Rs1.
+  rewrite <- Hs1eq in Ws1, Rs1. rewrite <- Hs1eq in Hle1.
+  assert (Hvs1 : aget (vmap s1) a = Some v) by (rewrite Hs1eq; exact Hv).
+  assert (Habs_old : absv s1 v = (norm v, l)).
+  { unfold absv. rewrite (view_le h1 s1 v Hle1) by apply Hvwf. reflexivity. }
+  assert (Habs_new : absv s1 nv = (norm nv, fst (dl_next l e'))).
+  { unfold absv. rewrite Hnview, stripd_map_some. reflexivity. }
+  assert (Hsep : forall u, reachable s1 t u -> v_addr u <> a -> v_aid u <> v_aid nv).
+  { intros u Hu _. assert (Hu1 : reachable h1 t u).
+    { destruct Hu as [[b Hb]|Hin]; [left; exists b; rewrite Hs1eq in Hb; exact Hb|right; rewrite Hs1eq in Hin; exact Hin]. }
+    pose proof (w_range _ _ W1v _ Hu1) as Hr. destruct Hnaid as [E|E]; rewrite E, ?Hnv0aid.
+    - unfold aid2. lia.
+    - destruct Hle2 as [L2 _]. lia. }
+  destruct (update_validator_spec s1 t x a v nv l (fst (dl_next l e')) s2 Ws1 Rs1 HJ Hvs1 Hvd Habs_old Hnvwf Habs_new Hsep Euv)
+    as (W2 & R2).
   (* delegator side *)
+  destruct (update_validator_fields _ _ _ _ Euv) as
+    (Earr & Evm & Eidx & Evj & Est & Edirty & Eacc & Eaj & Erev & Enext & Etv & Eti & Ets & Ebl & Eadr).
   assert (Hac2 : aget (accts s2) d = Some ac0).
-  { rewrite Eacc, F6. destruct Hrest as (_ & _ & _ & Ea & _). now rewrite Ea. }
-  assert (Hread2 : acct_readable s2 ac0 = true).
-  { unfold acct_readable, blob_ok in *. rewrite Ebl, F11. destruct Hrest as (_&_&_&_&_&_&_&_&_&_&Eb). now rewrite Eb. }
+  { rewrite Eacc, Hs1eq. cbn [accts w_arrs]. destruct Hrest as (_ & _ & _ & Ea & _). now rewrite Ea. }
+  assert (Hread2 : acct_readable s2 ac0 = true) by (eapply acct_readable_wf; [apply W2|exact Hac2]).
   rewrite Hva in Hdel.
-  destruct (delegator_sim s2 t2 x2 d a amt _ ac0 h' (conj W2 WA2) R2 Hac2 Hread2 Hdel) as (W3 & R3).
-  assert (Hvj3 : length (vjournal h') = t2).
-  { destruct R3 as [_ _ _ _ _ _ _ _ Q _ _]. cbn [xvj] in Q. rewrite <- Q. unfold t2.
-    destruct R2 as [_ _ _ _ _ _ _ _ Q2 _ _]. exact Q2. }
-  rewrite Hvj3.
+  destruct (delegator_sim s2 t _ d a amt _ ac0 h' W2 R2 Hac2 Hread2 Hdel) as (W3 & R3).
   split; [exact W3|].
   rewrite (c_delegate_unfold (core x) d a amt (norm v) l Hxs Hnz Hposs).
   fold e. replace (v_token (norm v)) with (v_token v) by (destruct v; reflexivity).
   replace (v_stake (norm v)) with (v_stake v) by (destruct v; reflexivity).
-  fold tok. fold e'. fold nvx. fold l'. fold c1.
-  rewrite (a_push_split x c1). exact R3.
+  fold tok. fold e'.
+  assert (Hnorm2 : norm nv = set_total (norm v) (v_token v + amt) (v_stake v + (tok / stake_unit - d_stake e))).
+  { rewrite Hnnorm. unfold nv0. now rewrite norm_set_view, norm_set_total. }
+  rewrite <- Hnorm2.
+  rewrite (a_push_split x (c_update_validator (core x) a (norm nv, fst (dl_next l e')) (norm v, l))). exact R3.
 Qed.
 
 (* ---- Commit followed by state.New ---------------------------------------------------------- *)
@@ -2295,11 +2385,6 @@ Qed.
 Lemma list_eqb_refl l : list_eqb Z.eqb l l = true.
 Proof. induction l as [|a r IH]; cbn; [reflexivity|]. now rewrite Z.eqb_refl, IH. Qed.
 
-Definition bok (bl : list (list Z)) (hs : list Z) : bool :=
-  match hs with [] => true | l => existsb (list_eqb Z.eqb l) bl end.
-
-Lemma blob_ok_bok s ac : blob_ok s ac = bok (blobs s) (a_hash ac).
-Proof. unfold blob_ok, bok. destruct (a_hash ac); reflexivity. Qed.
 
 Lemma bok_incl b0 b hs : (forall y, In y b0 -> In y b) -> bok b0 hs = true -> bok b hs = true.
 Proof.
@@ -2312,22 +2397,22 @@ Proof.
   split; [assumption|apply list_eqb_refl].
 Qed.
 
-Lemma commit_blobs_spec l : forall b0,
-  (forall y, In y b0 -> In y (snd (commit_blobs l b0))) /\
-  map fst (fst (commit_blobs l b0)) = map fst l /\
-  (forall d ac', aget (fst (commit_blobs l b0)) d = Some ac' ->
+Lemma commit_blobs_spec dirty l : forall b0,
+  (forall y, In y b0 -> In y (snd (commit_blobs dirty l b0))) /\
+  map fst (fst (commit_blobs dirty l b0)) = map fst l /\
+  (forall d ac', aget (fst (commit_blobs dirty l b0)) d = Some ac' ->
      exists ac, aget l d = Some ac /\ a_dbal ac' = a_dbal ac /\ a_hash ac' = a_hash ac /\
-       (a_ddirty ac = true \/ bok b0 (a_hash ac) = true -> bok (snd (commit_blobs l b0)) (a_hash ac) = true)) /\
-  (forall d, aget l d = None -> aget (fst (commit_blobs l b0)) d = None).
+       (mem d dirty && a_ddirty ac = true \/ bok b0 (a_hash ac) = true -> bok (snd (commit_blobs dirty l b0)) (a_hash ac) = true)) /\
+  (forall d, aget l d = None -> aget (fst (commit_blobs dirty l b0)) d = None).
 Proof.
   induction l as [|[k ac] r IH]; intros b0; cbn [commit_blobs].
   - cbn. repeat split; auto; intros; discriminate.
-  - destruct (IH b0) as (I1 & I2 & I3 & I4). destruct (commit_blobs r b0) as [r' b'] eqn:Ec. cbn [fst snd] in *.
-    assert (Hinc : forall y, In y b0 -> In y (snd (if a_ddirty ac
+  - destruct (IH b0) as (I1 & I2 & I3 & I4). destruct (commit_blobs dirty r b0) as [r' b'] eqn:Ec. cbn [fst snd] in *.
+    assert (Hinc : forall y, In y b0 -> In y (snd (if mem k dirty && a_ddirty ac
                       then ((k, mkA (a_dbal ac) (a_hash ac) (a_loaded ac) false) :: r', match a_hash ac with [] => b' | h :: t => (h :: t) :: b' end)
                       else ((k, ac) :: r', b')))).
-    { intros y Hy. destruct (a_ddirty ac); cbn; [destruct (a_hash ac); cbn; auto|auto]. }
-    destruct (a_ddirty ac) eqn:Ed; cbn [fst snd] in *.
+    { intros y Hy. destruct (mem k dirty && a_ddirty ac); cbn; [destruct (a_hash ac); cbn; auto|auto]. }
+    destruct (mem k dirty && a_ddirty ac) eqn:Ed; cbn [fst snd] in *.
     + split; [exact Hinc|]. split; [cbn; now rewrite I2|]. split.
       * intros d ac'. cbn. destruct (Z.eqb_spec k d) as [->|Hne].
         -- intros H; inversion H; subst ac'. exists ac. cbn. repeat split; auto. intros _.
@@ -2358,10 +2443,11 @@ Lemma sim_commit h t x h' :
 Proof.
   intros W Rx HJ HG. cbn [step a_step]. unfold commit_reload.
   destruct (intermediate_root h) as [s1|] eqn:Er; [|discriminate].
-  destruct (root_spec h t x s1 W Rx HJ Er) as ([W1 WA1] & R1 & Hti & Hts & Hbl & Hac).
-  destruct (commit_blobs (accts s1) (blobs s1)) as [ac b] eqn:Ec.
+  destruct (root_spec h t x s1 W Rx HJ Er) as ([W1 WA1] & R1 & Hti & Hts & Hbl & Hac & Hadr).
+  destruct (commit_blobs (adirty s1) (accts s1) (blobs s1)) as [ac b] eqn:Ec.
   intros H; inversion H; subst h'; clear H.
-  destruct (commit_blobs_spec (accts s1) (blobs s1)) as (C1 & C2 & C3 & C4). rewrite Ec in *. cbn [fst snd] in *.
+  destruct (commit_blobs_spec (adirty s1) (accts s1) (blobs s1)) as (C1 & C2 & C3 & C4). rewrite Ec in *. cbn [fst snd] in *.
+  assert (Haj1 : ajournal s1 = []) by (rewrite <- (r_aj _ _ _ R1); reflexivity).
   assert (Hd1 : vdirty s1 = []) by (rewrite <- (r_dirty _ _ _ R1); reflexivity).
   assert (Hj1 : vjournal s1 = []).
   { pose proof (r_vjlen _ _ _ R1) as Hl. cbn in Hl. destruct (vjournal s1); [reflexivity|discriminate]. }
@@ -2370,7 +2456,15 @@ Proof.
     apply stat_neg_wrap, goodV_nonneg, GV. }
   set (ac' := map (fun p => (fst p, mkA (a_dbal (snd p)) (a_hash (snd p)) false false)) ac).
   set (h' := mkS (arrs s1) [] (match t_index s1 with Some l => l | None => [] end) (t_stat s1) [] [] ac' [] [] 0
-                 (t_vals s1) (t_index s1) (t_stat s1) b).
+                 (t_vals s1) (t_index s1) (t_stat s1) b []).
+  assert (Hok_all : forall d a0, aget ac d = Some a0 -> bok b (a_hash a0) = true).
+  { intros d a0 E0. destruct (C3 _ _ E0) as (a1 & A1 & A2 & A3 & A4). rewrite A3. apply A4.
+    destruct (mem d (adirty s1)) eqn:Em; cbn [andb].
+    - destruct (a_ddirty a1) eqn:Edd; [auto|]. right.
+      destruct (w_acct _ WA1 _ _ A1) as [_ Hw]. specialize (Hw Edd). now rewrite <- blob_ok_bok.
+    - right. rewrite <- blob_ok_bok. apply (w_ab _ WA1 _ _ A1).
+      + intros Hin. apply mem_In in Hin. congruence.
+      + intros prev. rewrite Haj1. intros []. }
   split; [split|].
   - constructor; cbn.
     + lia.
@@ -2389,15 +2483,18 @@ Proof.
   - constructor; cbn.
     + intros d ac1. unfold ac'. rewrite (aget_map_snd (fun a0 => mkA (a_dbal a0) (a_hash a0) false false)). destruct (aget ac d) as [a0|] eqn:E0; [|discriminate].
       cbn. intros H; inversion H; subst ac1; clear H. cbn.
-      destruct (C3 _ _ E0) as (a1 & A1 & A2 & A3 & A4). rewrite blob_ok_bok. cbn [blobs a_hash h']. rewrite A3.
-      assert (Hok : bok b (a_hash a1) = true).
-      { apply A4. destruct (a_ddirty a1) eqn:Edd; [auto|]. right.
-        destruct (w_acct _ WA1 _ _ A1) as [_ Hw]. specialize (Hw Edd). now rewrite <- blob_ok_bok. }
+      rewrite blob_ok_bok. cbn [blobs a_hash h'].
+      pose proof (Hok_all _ _ E0) as Hok.
       split; [right; exact Hok|intros _; exact Hok].
     + intros d prev [].
     + intros e [].
     + exact I.
     + unfold ac'. rewrite map_map. cbn. change (map (fun x0 : Z * acct => fst x0) ac) with (map fst ac). rewrite C2. apply (w_anodup _ WA1).
+    + intros d ac1. unfold ac'. rewrite (aget_map_snd (fun a0 => mkA (a_dbal a0) (a_hash a0) false false)).
+      destruct (aget ac d) as [a0|] eqn:E0; [|discriminate]. cbn. intros Hq; inversion Hq; subst ac1. intros _ _.
+      rewrite blob_ok_bok. cbn [blobs a_hash h']. apply (Hok_all _ _ E0).
+    + exact I.
+    + exact I.
   - unfold a_setnext. constructor; cbn [core xdirty xvj xaj xrevs xnext].
     + intros a. rewrite (r_xs _ _ _ R1). unfold xpeek. cbn.
       destruct (aget (vmap s1) a) as [v|] eqn:Ev; [|reflexivity].
@@ -2607,8 +2704,20 @@ Proof.
   destruct (copy_vals2 s1 (vdirty h) m1 d1 (vindex h)) as [[[[s2 m2] d2] idx]|] eqn:E2; [|discriminate].
   pose proof (copy_vals2_spec h t (vdirty h) s1 m1 d1 (vindex h) _ W C1 Hzs Hl2 Hidx E2) as (C2 & -> & K2).
   intros H; inversion H; subst h'; clear H.
-  set (ac' := map (fun p => (fst p, mkA (a_dbal (snd p)) (a_hash (snd p)) false false)) (accts h)).
-  set (h' := mkS (arrs s2) m2 (vindex h) (stat_ h) [] d2 ac' [] [] 0 (t_vals h) (t_index h) (t_stat h) (blobs h)).
+  set (adirt := finalise_adirty h).
+  set (g := fun (k : Z) (a0 : acct) => if mem k adirt then a0 else mkA (a_dbal a0) (a_hash a0) false false).
+  set (ac' := map (fun p => (fst p, if mem (fst p) adirt then snd p
+                                    else mkA (a_dbal (snd p)) (a_hash (snd p)) false false)) (accts h)).
+  assert (Hacg : forall d, aget ac' d = option_map (g d) (aget (accts h) d)).
+  { intros d. unfold ac', g. induction (accts h) as [|[k y] r IH]; cbn; [reflexivity|].
+    destruct (Z.eqb_spec k d) as [->|Hne]; [reflexivity|exact IH]. }
+  assert (Hreset : forall d a0, aget (accts h) d = Some a0 -> mem d adirt = false -> blob_ok h a0 = true).
+  { intros d a0 Hd Hm. apply (w_ab _ WA _ _ Hd).
+    - intros Hin. assert (In d adirt) by (apply finalise_adirty_In; auto). apply mem_In in H. congruence.
+    - intros prev Hin. assert (In d adirt).
+      { apply finalise_adirty_In. right. exists (JDlgs d prev). split; [exact Hin|]. split; [reflexivity|congruence]. }
+      apply mem_In in H. congruence. }
+  set (h' := mkS (arrs s2) m2 (vindex h) (stat_ h) [] d2 ac' [] [] 0 (t_vals h) (t_index h) (t_stat h) (blobs h) adirt).
   assert (Hkeys : forall a, aget m2 a <> None <-> In a (map ventry_addr (vjournal h)) \/ In a (vdirty h)).
   { intros a. rewrite K2, K1. cbn. rewrite vj_dirties_In. intuition congruence. }
   assert (Harr : arrs h' = arrs s2) by reflexivity.
@@ -2635,17 +2744,24 @@ Proof.
     + apply C2.
     + apply C2.
     + apply (w_tnodup _ _ W).
-  - constructor; cbn [accts ajournal blobs h'].
-    + intros d ac1. unfold ac'. rewrite (aget_map_snd (fun a0 => mkA (a_dbal a0) (a_hash a0) false false)).
-      destruct (aget (accts h) d) as [a0|] eqn:E0; [|discriminate]. cbn. intros H; inversion H; subst ac1; clear H.
-      rewrite forallb_forall in Hp. specialize (Hp (d, a0) (aget_In _ _ _ E0)). cbn in Hp.
-      assert (Hb : blob_ok h' (mkA (a_dbal a0) (a_hash a0) false false) = true) by exact Hp.
-      split; [right; exact Hb|intros _; exact Hb].
+  - constructor; cbn [accts ajournal blobs adirty h'].
+    + intros d ac1. rewrite Hacg. destruct (aget (accts h) d) as [a0|] eqn:E0; [|discriminate]. cbn.
+      intros H; inversion H; subst ac1; clear H. unfold g. destruct (mem d adirt) eqn:Em.
+      * apply (w_acct _ WA _ _ E0).
+      * pose proof (Hreset _ _ E0 Em) as Hb.
+        assert (Hb' : blob_ok h' (mkA (a_dbal a0) (a_hash a0) false false) = true) by exact Hb.
+        split; [right; exact Hb'|intros _; exact Hb'].
     + intros d prev [].
     + intros e [].
     + exact I.
     + unfold ac'. rewrite map_map. cbn. change (map (fun x0 : Z * acct => fst x0) (accts h)) with (map fst (accts h)).
       apply (w_anodup _ WA).
+    + intros d ac1. rewrite Hacg. destruct (aget (accts h) d) as [a0|] eqn:E0; [|discriminate]. cbn.
+      intros H; inversion H; subst ac1; clear H. intros Hnd _. unfold g.
+      destruct (mem d adirt) eqn:Em; [exfalso; apply Hnd, mem_In, Em|].
+      exact (Hreset _ _ E0 Em).
+    + exact I.
+    + apply finalise_adirty_sorted, (w_adsorted _ WA).
   - unfold a_setnext, a_finalise. constructor; cbn [core xdirty xvj xaj xrevs xnext].
     + intros a. rewrite (r_xs _ _ _ Rx). unfold xpeek at 2. cbn [vmap t_vals h'].
       destruct (aget m2 a) as [w|] eqn:Ew.
@@ -2661,8 +2777,9 @@ Proof.
            rewrite P1. destruct (w_tvals _ _ W _ _ P1) as [_ Hn]. rewrite Hn. unfold absv. rewrite P3, P2. reflexivity.
     + apply Rx.
     + apply Rx.
-    + intros d. cbn [accts h']. unfold ac'. rewrite (aget_map_snd (fun a0 => mkA (a_dbal a0) (a_hash a0) false false)).
-      rewrite (r_accts _ _ _ Rx d). destruct (aget (accts h) d); reflexivity.
+    + intros d. cbn [accts h']. rewrite Hacg.
+      rewrite (r_accts _ _ _ Rx d). destruct (aget (accts h) d); [|reflexivity]. cbn. unfold g.
+      destruct (mem d adirt); reflexivity.
     + cbn [vdirty h']. apply zsorted_ext.
       * rewrite fin_dirty_a. apply zsorted_fold_sins. rewrite (r_dirty _ _ _ Rx). apply (w_dsorted _ _ W).
       * apply C2.
